@@ -31,11 +31,16 @@ package jws
 // and case-mismatched members); decoding is a function of the bytes (assumed)
 //@ spec hdrJSONOK(data bytes) bool
 //@ spec hdrJSONOf(data bytes) jws.Headers
+// ... and so is its CONTENT: which members it has and their values (the parsed header is handed on as decoded, no member
+// added, removed or rewritten)
+//@ spec hdrHas(data bytes, k string) bool
+//@ spec hdrVal(data bytes, k string) any
 //@ extern github.com/square/go-jose/v3/json.Unmarshal
 //@   params data, v
 //@   results err
 //@   ensures isType(v, "*jws.Headers") ==> (err == nil) == hdrJSONOK(data)
 //@   ensures err == nil && isType(v, "*jws.Headers") ==> deref(unbox(v, "*jws.Headers")) == hdrJSONOf(data)
+//@   ensures err == nil && isType(v, "*jws.Headers") ==> (forall k string :: (k in deref(unbox(v, "*jws.Headers"))) == hdrHas(data, k) && (hdrHas(data, k) ==> deref(unbox(v, "*jws.Headers"))[k] == hdrVal(data, k)))
 //@ func checkJWSHeaders
 //@   ensures (result == nil) == ("alg" in headers)
 //@ func parseCompactedHeaders
@@ -43,6 +48,7 @@ package jws
 //@   results h, err
 //@   ensures (err == nil) == (rawOK(parts[0]) && hdrJSONOK(rawDec(parts[0])) && "alg" in hdrJSONOf(rawDec(parts[0])))
 //@   ensures err == nil ==> h == hdrJSONOf(rawDec(parts[0]))
+//@   ensures err == nil ==> (forall k string :: (k in h) == hdrHas(rawDec(parts[0]), k) && (hdrHas(rawDec(parts[0]), k) ==> h[k] == hdrVal(rawDec(parts[0]), k)))
 //@ func parseCompactedPayload
 //@   requires opts != nil
 //@   results p, err
@@ -58,6 +64,7 @@ package jws
 //@   ensures err == nil && len(opts.detachedPayload) == 0 ==> sig.Payload == rawDec(strSplit(jwsCompact, ".")[1]) && len(sig.Payload) > 0
 //@   ensures err == nil && len(opts.detachedPayload) > 0 ==> sig.Payload == opts.detachedPayload
 //@   ensures len(strSplit(jwsCompact, ".")) != 3 ==> err != nil
+//@   ensures err == nil ==> (forall k string :: (k in sig.ProtectedHeaders) == hdrHas(rawDec(strSplit(jwsCompact, ".")[0]), k) && (hdrHas(rawDec(strSplit(jwsCompact, ".")[0]), k) ==> sig.ProtectedHeaders[k] == hdrVal(rawDec(strSplit(jwsCompact, ".")[0]), k)))
 //
 //@ func ParseJWS
 //@   trusted
